@@ -197,7 +197,27 @@ def run_one(v, idx, case, scratch, rng):
     log = probes.new_log(scratch)
     try:
         with quiet():
-            pipeline = daggen.build_pipeline(case, log=log, explicit_defaults=(idx % 4 == 1))
+            if idx % 3 == 0:
+                # a SIBLING pipeline built from the same PipeFunc objects (other listing order) whose defaults and bound
+                # values are then changed: the pipeline under test must keep computing what its own definition says
+                from pipefunc import Pipeline
+                fs = daggen.build_funcs(case, log=log, explicit_defaults=(idx % 4 == 1))
+                pipeline = Pipeline(list(fs))
+                sib = Pipeline(list(reversed(fs)))
+                for r in case["defaults"]:
+                    try:
+                        sib.update_defaults({r: "SIBLING-DEFAULT"})
+                    except Exception:  # noqa: BLE001  (not settable in this pipeline: not our subject)
+                        pass
+                for f in case["funcs"]:
+                    for prm in f["bound"]:
+                        try:
+                            sib[f["outs"][0]].update_bound({prm: "SIBLING-BOUND"})
+                        except Exception:  # noqa: BLE001
+                            pass
+                v.count("cases_with_mutated_sibling_pipeline")
+            else:
+                pipeline = daggen.build_pipeline(case, log=log, explicit_defaults=(idx % 4 == 1))
     except Exception as e:  # noqa: BLE001
         v.bad(exc_sig(e, "refused-construct"), f"valid DAG refused: {exc_msg(e)}", case=daggen.describe(case))
         return
